@@ -381,9 +381,24 @@ def check_case(ctx, case, drv):
                 # m0: [expr_1 (vector), dur_1, ...]; m1: [expr_1[1,1], dur_1, expr_1[2,1], dur_1, ...]
                 want = []
                 for k in range(0, len(d0), 2):
-                    for x in d0[k]:
-                        want.append([[x], d0[k + 1]])
+                    r, c = m0.delay_arguments[k // 2].expr.shape if hasattr(m0.delay_arguments[k // 2].expr, "shape") else (1, 1)
+                    # state `name[i,j]` (created in row-major order) delays entry (i, j) of the expression
+                    for i in range(r):
+                        for j in range(c):
+                            want.append([[d0[k][i + j * r]], d0[k + 1]])
                 got = [[d1[k], d1[k + 1]] for k in range(0, len(d1), 2)]
+                if drv is not None:
+                    # model: which storage position of the delayed expression each new delay state reads
+                    mwant = []
+                    for k in range(0, len(d0), 2):
+                        e = m0.delay_arguments[k // 2].expr
+                        shp = list(e.shape) if hasattr(e, "shape") else [1, 1]
+                        ans = drv.ask({"op": "expand.delayargs", "shape": shp})
+                        if not ans.get("ok"):
+                            raise HarnessError("drv_c18 rejected expand.delayargs: %s" % ans)
+                        mwant += [[[d0[k][p]], d0[k + 1]] for p in ans["positions"]]
+                    if json.dumps(mwant) != json.dumps(got):
+                        ctx.disagreement("expand.delayargs", case, mwant, got)
                 if json.dumps(want) != json.dumps(got):
                     ctx.violation("expanded delay arguments differ from the unexpanded ones under the renaming", case,
                                   expected=want, observed=got, kind="program")
